@@ -27,11 +27,11 @@ CURATED = {
     "weights": { "load_weights": ("C02",), "Dispersion.get_pars": ("C02", "C10", "C11",),
         MODULE_BODY: ("C02",),
         "Dispersion.__init__": ("C02", "C10"), "Dispersion.set_weights": ("C02", "C10"),
-        "Dispersion.get_weights": ("C01", "C02", "C05", "C06", "C07", "C10", "C14",), "Dispersion._linspace": ("C01", "C02"),
+        "Dispersion.get_weights": ("C01", "C02", "C05", "C06", "C07", "C10", "C13", "C14",), "Dispersion._linspace": ("C01", "C02"),
         "GaussianDispersion._weights": ("C01", "C02",), "UniformDispersion._weights": ("C01", "C02",), "RectangleDispersion._weights": ("C01", "C02",),
         "LogNormalDispersion._weights": ("C01", "C02",), "SchulzDispersion._weights": ("C01", "C02",), "BoltzmannDispersion._weights": ("C01", "C02",),
         "ArrayDispersion.__init__": ("C02",), "ArrayDispersion.set_weights": ("C02", "C10"), "ArrayDispersion._weights": ("C01", "C02", "C10"),
-        "get_weights": ("C01", "C02", "C05", "C07", "C10", "C14",),
+        "get_weights": ("C01", "C02", "C05", "C07", "C10", "C13", "C14",),
     },
     "resolution": {
         MODULE_BODY: ("C03", "C04"),
@@ -63,13 +63,13 @@ CURATED = {
         MODULE_BODY: ("C10",),
         "call_kernel": ("C01", "C05", "C06", "C07", "C08", "C09", "C10", "C14", "C16",), "call_Fq": ("C07", "C09", "C11", "C14", "C16",), "get_mesh": ("C01", "C02", "C05", "C06", "C07", "C08", "C09", "C10", "C11", "C14", "C16",), "_pop_par_weights": ("C01", "C02", "C05", "C06", "C07", "C08", "C09", "C10", "C11", "C14", "C16",),
         "_make_sesans_transform": ("C19",), "DataMixin._interpret_data": ("C03", "C04", "C10", "C11", "C19",), "DataMixin._calc_theory": ("C03", "C05", "C06", "C07", "C10", "C11", "C19",),
-        "DirectModel.__init__": ("C10", "C19",), "DirectModel.__call__": ("C01", "C10", "C19",), "_direct_calculate": ("C10", "C19",), "Iq": ("C10",), "Iqxy": ("C10",),
+        "DirectModel.__init__": ("C10", "C19",), "DirectModel.__call__": ("C01", "C10", "C19",), "_direct_calculate": ("C10", "C19",), "Iq": ("C03", "C04", "C10",), "Iqxy": ("C03", "C04", "C10",),
         "Gxi": ("C10", "C19"),
     },
     "details": { "CallDetails.pd_par": ("C01",), "CallDetails.pd_length": ("C01",), "CallDetails.pd_offset": ("C01",), "CallDetails.pd_stride": ("C01",), "CallDetails.num_eval": ("C01",), "CallDetails.num_weights": ("C01",), "CallDetails.num_active": ("C01",), "CallDetails.theta_par": ("C01", "C05",),
         MODULE_BODY: ("C01",),
-        "CallDetails.__init__": ("C01", "C05", "C06", "C07", "C08", "C09", "C14",), "make_details": ("C01", "C05", "C06", "C07", "C08", "C09", "C14",), "make_kernel_args": ("C01", "C05", "C06", "C07", "C08", "C09", "C10", "C11", "C14", "C16",),
-        "correct_theta_weights": ("C01", "C05",), "convert_magnetism": ("C06", "C08", "C15"), "dispersion_mesh": ("C01", "C10"),
+        "CallDetails.__init__": ("C01", "C05", "C06", "C07", "C08", "C09", "C14",), "make_details": ("C01", "C05", "C06", "C07", "C08", "C09", "C10", "C11", "C14", "C19",), "make_kernel_args": ("C01", "C05", "C06", "C07", "C08", "C09", "C10", "C11", "C14", "C16",),
+        "correct_theta_weights": ("C01", "C05",), "convert_magnetism": ("C06", "C08", "C13", "C15",), "dispersion_mesh": ("C01", "C10"),
     },
     "kerneldll": { "DllKernel.release": ("C11",), "DllModel.release": ("C11", "C18",), "DllModel.__getstate__": ("C11", "C18"), "DllModel.__setstate__": ("C11", "C18"),
         MODULE_BODY: ("C17", "C18"),
@@ -107,7 +107,7 @@ CURATED = {
     "modelinfo": { "Parameter.__init__": ("C09", "C20",), "Parameter.as_definition": ("C09", "C16",), "Parameter.as_function_argument": ("C09", "C16",), "ParameterTable._get_ref": ("C01", "C09",), "ParameterTable.user_parameters": ("C10",), "ParameterTable.set_zero_background": ("C07", "C08",), "expand_pars": ("C09", "C10",), "prefix_parameter": ("C08",), "suffix_parameter": ("C07", "C08",), "ModelInfo.get_hidden_parameters": ("C10",), "ParameterTable.__getitem__": ("C09",), "ParameterTable.__contains__": ("C09",),
         "make_parameter_table": ("C09", "C16", "C20",), "parse_parameter": ("C09", "C16", "C20",), "ParameterTable.__init__": ("C01", "C02", "C05", "C06", "C07", "C08", "C09", "C10", "C16", "C20",), "ParameterTable.check_angles": ("C05", "C09",),
         "ParameterTable.check_duplicates": ("C09",), "ParameterTable._set_vector_lengths": ("C01", "C07", "C08", "C09", "C20",), "ParameterTable._get_call_parameters": ("C01", "C06", "C07", "C08", "C09", "C16", "C20",),
-        "ParameterTable._get_defaults": ("C07", "C08", "C09", "C10",), "make_model_info": ("C09", "C16", "C20",), "derive_table": ("C16",), "_insert_after": ("C16",), "_simple_insert": ("C16",),
+        "ParameterTable._get_defaults": ("C06", "C07", "C08", "C09", "C10",), "make_model_info": ("C09", "C16", "C20",), "derive_table": ("C16",), "_insert_after": ("C16",), "_simple_insert": ("C16",),
     },
     "convert": {
         MODULE_BODY: ("C20",),
@@ -116,8 +116,8 @@ CURATED = {
         "_rename_magnetic_pars": ("C20",), "_rename_magnetic_angles": ("C20",), "_hand_convert_3_1_2_to_4_1": ("C20",), "convert_model": ("C20",),
     },
     "data": { "_as_numpy": ("C10",),
-        "Data1D.__init__": ("C03", "C10"), "Data2D.__init__": ("C03", "C10"), "SesansData.__init__": ("C10", "C19"),
-        "empty_data1D": ("C10",), "empty_data2D": ("C10",), "empty_sesans": ("C10", "C19"), "set_beam_stop": ("C10",), "set_half": ("C10",),
+        "Data1D.__init__": ("C03", "C10"), "Data2D.__init__": ("C03", "C04", "C10",), "SesansData.__init__": ("C10", "C19"),
+        "empty_data1D": ("C10",), "empty_data2D": ("C03", "C04", "C10",), "empty_sesans": ("C10", "C19"), "set_beam_stop": ("C10",), "set_half": ("C10",),
         "set_top": ("C10",),
     },
     "custom/__init__": { "_find_sources": ("C17",),MODULE_BODY: ("C17",), "load_custom_kernel_module": ("C17",), "load_module_from_path": ("C17",), "need_reload": ("C17",)},
